@@ -86,7 +86,8 @@ def gcc_pp(src, defs=(), undefs=()):
     for u in undefs:
         args.insert(-3, "-U" + u)
     r = subprocess.run(args, input=src, stdout=subprocess.PIPE, stderr=subprocess.PIPE, text=True)
-    if r.returncode != 0 or r.stderr.strip():
+    err = "\n".join(l for l in r.stderr.split("\n") if l.strip() and not re.search(r'warning: "\w+" redefined|note: this is the location of the previous definition', l))
+    if r.returncode != 0 or err.strip():
         return None, r.stderr
     return pylex(r.stdout), ""
 
@@ -305,5 +306,390 @@ def gen_defs(rng, names=("A", "B", "C", "DD")):
     return ds, us
 
 
+
+# ---- known findings ----------------------------------------------------------------------------------------------------
+
+KEYS = {
+    "if-unevaluated": "F11f `#if`: operands that C does not evaluate (right of `0 &&`, `1 ||`, unselected arm of `?:`) are folded: division by zero there is an error / wrong value",
+    "if-unsigned": "F11d `#if`: no uintmax_t arithmetic (everything is long long; 0xffffffffffffffff is clamped to LLONG_MAX, `-1 < 0u` is true)",
+    "if-literal": "F11e `#if`: literal spellings (`!00`, `-010`, `0L ? :`, `-0X10`) are compared / negated as strings",
+    "if-unary": "F11c `#if`: a unary operator applied to a unary expression or unary minus of a non-positive value (`!!1`, `- -1`, `-(-1)`, `-0 ? :`) is not folded: the condition is 0",
+    "if-mix": "F11a/b `#if`: `||` and `&&` (and `==`/`!=` and relational operators) are folded in one left-to-right pass (`1 || 0 && 0` is 0, `2 == 1 < 1` is 1)",
+    "if-chain": "F11g `#if`: `a ? b : c ? d : e` with a != 0 continues with `b ? d : e`",
+    "elif-after-taken-group-evaluated": "F11h the condition of `#elif` is evaluated (and its errors reported) although an earlier group of the if-section was taken",
+    "va-args-comma-elision": "F11i a `,` before an empty `__VA_ARGS__` followed by `)` is dropped without `##`",
+    "stringify-space-after-combined-operator": "F11j `#x` drops the space after an operator token made of two characters (`a == b` gives \"a ==b\")",
+    "self-named-macro-reexpanded": "F11k a function-like macro whose replacement list is its own name is expanded again when `(` follows (`#define f(x) f`, `f(1)(2)` gives `f`)",
+}
+QUIRK_KEYS = [("011", "va-args-comma-elision"), ("101", "stringify-space-after-combined-operator"), ("110", "elif-after-taken-group-evaluated")]
+
+
+def load_corpus():
+    p = os.path.join(core.VERIF, "corpus", "C11", "cases.json")
+    return json.load(open(p)) if os.path.exists(p) else []
+
+
+_reported = {}
+
+
+def report(res, what, replay, key):
+    n = _reported.get(key, 0)
+    _reported[key] = n + 1
+    if n < (2 if key else 8):
+        res.violation(what, replay, concrete=True, key=key)
+
+
+def lst(l):
+    return ",".join(hx(x) for x in l) or "-"
+
+
+# ---- `#if` evaluator tie -------------------------------------------------------------------------------------------
+
+EV_DEFS = ["A=1", "B=0"]
+
+
+def canon_ev(l):
+    return "E other" if l.startswith("E other") else l
+
+
+def parse_spec_line(m):
+    p = m.split()
+    text = unhx(p[0]).decode("latin-1")
+    if p[1] == "S":
+        return text, int(p[2]), p[3] == "1", p[4], " ".join(p[5:])
+    return text, None, None, p[2], " ".join(p[3:])
+
+
+def gcc_branches(texts, defs):
+    """one gcc run over all conditions; per text: True/False (branch) or None (gcc: error / overflow / out of range literal)"""
+    src = "".join("#if %s\nT%d\n#else\nF%d\n#endif\n" % (t, i, i) for i, t in enumerate(texts))
+    args = list(GCC)
+    for d in defs:
+        args.insert(-3, "-D" + d)
+    r = subprocess.run(args, input=src, stdout=subprocess.PIPE, stderr=subprocess.PIPE, text=True)
+    bad = set()
+    for l in r.stderr.split("\n"):
+        m = re.match(r"<stdin>:(\d+):(?:\d+:)? (error|warning): (.*)", l)
+        if not m:
+            continue
+        if m.group(2) == "error" or re.search(r"overflow|too large|so large|invalid suffix", m.group(3)):
+            bad.add((int(m.group(1)) - 1) // 5)
+    out = [None] * len(texts)
+    for t in pylex(r.stdout):
+        if t[0] in "TF" and t[1:].isdigit():
+            k = int(t[1:])
+            if k < len(out) and k not in bad:
+                out[k] = (t[0] == "T")
+    return out
+
+
+def ev_tie(ctx, res, exe, drv, asts, name, gcc_n):
+    ops = ["spec %s %s" % (lst(EV_DEFS), a) for a in asts]
+    rc, mo, err = core.run_lines(drv, [], ops, timeout=900)
+    if len(mo) != len(ops):
+        raise core.CheckBroken("drv_c11 produced %d lines for %d ops: %s" % (len(mo), len(ops), err[-300:]))
+    parsed = [parse_spec_line(m) for m in mo]
+    eops = ["ev %s %s" % (lst(EV_DEFS), hx(p[0])) for p in parsed]
+    rc, io, err = core.run_lines(exe, [], eops, timeout=900)
+    if len(io) != len(eops):
+        raise core.CheckBroken("c11 harness produced %d lines for %d ops: %s" % (len(io), len(eops), err[-300:]))
+    io = [canon_ev(x) for x in io]
+    core.correspond(ctx, res, name, eops, io, [p[4] for p in parsed],
+                    nontrivial=lambda op, out: len(re.findall(r"[-+*/%<>=!&|^~?]+", unhx(op.split()[2]).decode("latin-1"))) >= 2)
+    # P_impl: the branch the implementation takes == the branch the C semantics takes
+    for a, (text, sv, su, cls, mv), iv in zip(asts, parsed, io):
+        res.count("ev-class:" + cls)
+        if sv is None:
+            res.count("ev-spec-undefined")
+            continue
+        ib = None if iv.startswith("E") else (int(iv.split()[1]) != 0)
+        if ib != (sv != 0):
+            key = None if cls == "agree" else "if-" + cls
+            res.count("ev-deviation:" + str(key))
+            report(res, "`#if %s`: simplecpp %s, C17 6.10.1 value %d%s" % (text, ("evaluates to " + iv.split()[1]) if ib is not None else "fails: " + iv, sv, "u" if su else ""),
+                   dict(kind="ev", ast=a, text=text, defs=EV_DEFS, impl=iv, spec=sv, classified=key), key)
+    # the specification against gcc
+    idx = list(range(len(asts)))
+    ctx.rng.shuffle(idx)
+    idx = idx[:gcc_n]
+    gb = gcc_branches([parsed[i][0] for i in idx], EV_DEFS)
+    bad = []
+    for i, g in zip(idx, gb):
+        sv = parsed[i][1]
+        if sv is not None:
+            res.count("spec-vs-gcc")
+            if g is None or g != (sv != 0):
+                bad.append("%s: spec %s gcc %s" % (parsed[i][0], sv, g))
+    res.oblig("spec:%s-vs-gcc" % name, not bad, "correspondence", "" if not bad else "%d differ; first: %s" % (len(bad), bad[0]))
+    return parsed, io
+
+
+# ---- preprocess tie ------------------------------------------------------------------------------------------------------
+
+def canon_pp(l):
+    """canonical form of a harness `pp` / `cd` line (error messages -> classes of the model)"""
+    p = l.split(" ")
+    if p[0] != "E" or len(p) < 2:
+        return l
+    typ, _, h = p[1].partition(":")
+    msg = unhx(h).decode("latin-1") if h and re.fullmatch(r"[0-9a-f]+|-", h) else h
+    if typ == "error":
+        return "E error"
+    if typ == "syntax":
+        if "Wrong number of parameters" in msg:
+            return "E syntax:wrongargs"
+        if "failed to evaluate" in msg:
+            for k, c in (("division/modulo by zero", "div0"), ("division overflow", "divov"), ("invalid expression", "invalid"), ("undefined function-like macro", "fnmacro")):
+                if k in msg:
+                    return "E syntax:cond:" + c
+            return "E syntax:cond:other"
+        if "without #if" in msg:
+            return "E syntax:noif"
+        if "Failed to parse #define" in msg:
+            return "E syntax:define"
+        if "Syntax error in #" in msg:
+            return "E syntax:if"
+        if "Invalid ## usage" in msg:
+            return "X hashhash"
+        return "E syntax:?" + msg
+    return "E " + typ + ":" + msg
+
+
+def toks_of(l):
+    p = l.split(" ")
+    return pylex(unhx(p[1]).decode("latin-1")) if p[0] == "T" else None
+
+
+def self_named(src):
+    return re.search(r"^#define (\w+)\([^)]*\) \1\s*$", src, re.M) is not None
+
+
+def undef_defined_in_file(src, undefs):
+    return any(re.search(r"^#define %s\b" % re.escape(u), src, re.M) for u in undefs)
+
+
+def pp_tie(ctx, res, exe, drv, cases, name, gcc_n):
+    """cases: list of (src, defs, undefs)"""
+    ops = ["pp 111 %s %s %s" % (lst(d), lst(u), hx(s)) for s, d, u in cases]
+    rc, io, err = core.run_lines(exe, [], ops, timeout=900)
+    rc2, mo, err2 = core.run_lines(drv, [], ops, timeout=900)
+    if len(io) != len(ops) or len(mo) != len(ops):
+        raise core.CheckBroken("C11 pp: %d ops, harness %d lines, driver %d lines: %s %s" % (len(ops), len(io), len(mo), err[-300:], err2[-300:]))
+    io = [canon_pp(x) for x in io]
+    # outside the fragment (model says X): not compared
+    keep = [k for k in range(len(ops)) if not mo[k].startswith("X") and not io[k].startswith("X")]
+    for k in range(len(ops)):
+        if k not in set(keep):
+            res.count("pp-outside-fragment:" + (mo[k] if mo[k].startswith("X") else io[k]))
+    # self-named single token macros: known finding F11k, the model follows the standard
+    known_k = set()
+    for k in keep:
+        if io[k] != mo[k] and self_named(cases[k][0]):
+            known_k.add(k)
+    keep2 = [k for k in keep if k not in known_k]
+    core.correspond(ctx, res, name, [ops[k] for k in keep2], [io[k] for k in keep2], [mo[k] for k in keep2],
+                    nontrivial=lambda op, out: True)
+    # P_impl against gcc
+    idx = list(range(len(ops)))
+    ctx.rng.shuffle(idx)
+    n_g = 0
+    for k in idx:
+        if n_g >= gcc_n:
+            break
+        src, d, u = cases[k]
+        if undef_defined_in_file(src, u):
+            res.count("pp-skip:-U-name-defined-in-file")
+            continue
+        g, gerr = gcc_pp(src, d, u)
+        n_g += 1
+        if g is None:
+            res.count("pp-gcc-rejects")
+            continue
+        res.count("pp-vs-gcc")
+        it = toks_of(io[k])
+        if it == g:
+            continue
+        # classify: which single deviation of the model explains the difference?
+        key = None
+        if k in known_k or self_named(src):
+            key = "self-named-macro-reexpanded"
+        else:
+            for q, kk in QUIRK_KEYS:
+                rc3, m2, _ = core.run_lines(drv, [], ["pp %s %s %s %s" % (q, lst(d), lst(u), hx(src))])
+                if m2 and toks_of(m2[0]) == g and mo[k] == io[k]:
+                    key = kk
+                    break
+        res.count("pp-deviation:" + str(key))
+        report(res, "simplecpp and gcc -E disagree on\n%s  simplecpp: %s\n  gcc      : %s" % (src, " ".join(it) if it is not None else io[k], " ".join(g)),
+               dict(kind="pp", src=src, defs=d, undefs=u, impl=io[k], gcc=" ".join(g), classified=key), key)
+        # the model with all deviations switched off must be gcc (validates the specification side of the model)
+    return io, mo
+
+
+def spec_pp_vs_gcc(ctx, res, drv, cases, name):
+    """the model without the deviations (Quirks.std) == gcc -E on the same sources"""
+    bad = []
+    n = 0
+    for src, d, u in cases:
+        if undef_defined_in_file(src, u):
+            continue
+        g, gerr = gcc_pp(src, d, u)
+        rc, m, _ = core.run_lines(drv, [], ["pp 000 %s %s %s" % (lst(d), lst(u), hx(src))])
+        if not m or m[0].startswith("X"):
+            continue
+        n += 1
+        mt = toks_of(m[0])
+        if g is None:
+            if mt is not None and "error" in gerr and not re.search(r"passed \d+ arguments, but takes just 0|requires at least|unterminated", gerr):
+                bad.append("gcc rejects, model accepts: %r %s" % (src, gerr[:200]))
+        elif mt != g:
+            bad.append("%r: model(std) %s gcc %s" % (src, m[0] if mt is None else " ".join(mt), " ".join(g)))
+    res.count("spec-pp-vs-gcc", n)
+    res.oblig("spec:%s-vs-gcc" % name, not bad, "correspondence", "" if not bad else "%d differ; first: %s" % (len(bad), bad[0]))
+
+
+# ---- createDUI tie ---------------------------------------------------------------------------------------------------------
+
+NAMES = ["A", "B", "C", "DD"]
+
+
+def gen_userdefines(rng):
+    ds = []
+    for m in NAMES:
+        if rng.random() < 0.4:
+            ds.append(m + rng.choice(["", "", "=0", "=1", "=2", "=" + rng.choice(NAMES)]))
+    rng.shuffle(ds)
+    return ";".join(ds)
+
+
+def probes(tag):
+    return "".join("#ifdef %s\n%s_%s ;\n#endif\n" % (n, tag, n) for n in NAMES)
+
+
+def cd_tie(ctx, res, exe, drv, n):
+    rng = ctx.rng
+    cases = []
+    for _ in range(n):
+        ud = gen_userdefines(rng)
+        cfg = gen_userdefines(rng) if rng.random() < 0.4 else ""
+        if rng.random() < 0.1 and ud:
+            ud += ";"
+        undefs = [m for m in NAMES if rng.random() < 0.2]
+        src = probes("first") + gen_cond_source(rng, rng.choice([0, 1, 2, 3])) + probes("last")
+        cases.append((ud, undefs, cfg, src))
+    ops = ["cd %s %s %s %s" % (hx(ud), lst(u), hx(cfg), hx(src)) for ud, u, cfg, src in cases]
+    rc, io, err = core.run_lines(exe, [], ops, timeout=900)
+    rc2, mo, err2 = core.run_lines(drv, [], ops, timeout=900)
+    if len(io) != len(ops) or len(mo) != len(ops):
+        raise core.CheckBroken("C11 cd: %d ops, harness %d lines, driver %d lines: %s %s" % (len(ops), len(io), len(mo), err[-300:], err2[-300:]))
+    io = [canon_pp(x) for x in io]
+    core.correspond(ctx, res, "createDUI+preprocess", ops, io, mo, nontrivial=lambda op, out: True)
+    # P_impl: -D X (without -U X) => X defined at the start of the file; -U X => X never defined
+    for (ud, undefs, cfg, src), o in zip(cases, io):
+        t = toks_of(o)
+        if t is None:
+            continue
+        dn = [re.split(r"[=(]", p)[0] for p in ud.split(";") if p]
+        for x in dn:
+            if x not in undefs and ("first_" + x) not in t:
+                report(res, "-D%s but %s is not defined at the start of the file" % (x, x), dict(kind="cd", ud=ud, undefs=undefs, cfg=cfg, src=src, out=o), None)
+        for x in undefs:
+            if ("first_" + x) in t or ("last_" + x) in t:
+                report(res, "-U%s but %s is defined while the file is preprocessed" % (x, x), dict(kind="cd", ud=ud, undefs=undefs, cfg=cfg, src=src, out=o), None)
+        res.count("cd-D:%d-U:%d" % (min(len(dn), 3), len(undefs)))
+
+
+# ---- the check ---------------------------------------------------------------------------------------------------------------
+
 def run(ctx, res):
-    raise core.CheckBroken("C11 check under construction")
+    rng = ctx.rng
+    thorough = ctx.tier == "thorough"
+    core.prove(ctx, res, MODULES, THEOREMS)
+    drv = os.environ.get("C11_DRV") or ctx.driver("drv_c11")
+    exe = ctx.harness("c11")
+    _reported.clear()
+
+    # ---- corpus: witnesses of the known findings and past disagreements, replayed first -------------------------------
+    corpus = load_corpus()
+    ev_c = [c for c in corpus if c["kind"] == "ev"]
+    if ev_c:
+        ev_tie(ctx, res, exe, drv, [c["ast"] for c in ev_c], "evaluate-corpus", len(ev_c))
+    pp_c = [c for c in corpus if c["kind"] == "pp"]
+    if pp_c:
+        pp_tie(ctx, res, exe, drv, [(c["src"], c.get("defs", []), c.get("undefs", [])) for c in pp_c], "preprocess-corpus", len(pp_c))
+    seen = set(k for k, n in _reported.items() if n)
+    for c in corpus:
+        if c.get("key") and c["key"] not in seen:
+            res.count("corpus-witness-no-longer-fails:" + c["key"])
+
+    # ---- C-eval ------------------------------------------------------------------------------------------------------------
+    n_ev = 12000 if thorough else 1800
+    asts = []
+    for i in range(n_ev):
+        d = rng.choice([1, 2, 2, 3, 3, 4])
+        r = rng.random()
+        if r < 0.5:
+            asts.append(gen_expr(rng, d, plain=True))
+        elif r < 0.6:
+            asts.append(gen_expr(rng, d, plain=True, ops=[16, 17, 7, 8, 9, 11]))     # logical / comparison shapes
+        else:
+            asts.append(gen_expr(rng, d))
+    ev_tie(ctx, res, exe, drv, asts, "evaluate", 3000 if thorough else 400)
+    # malformed conditions
+    soups = [gen_soup(rng) for _ in range(3000 if thorough else 500)]
+    sops = ["ev %s %s" % (lst(EV_DEFS), hx(t)) for t in soups]
+    rc, io, err = core.run_lines(exe, [], sops, timeout=600)
+    rc, mo, err = core.run_lines(drv, [], sops, timeout=600)
+    core.correspond(ctx, res, "evaluate-malformed", sops, [canon_ev(x) for x in io], mo, nontrivial=lambda op, out: True)
+
+    # ---- C-pp ---------------------------------------------------------------------------------------------------------------
+    n_pp = 3000 if thorough else 450
+    cases = []
+    for i in range(n_pp):
+        src = render(gen_macro_source(rng, rng.choice([2, 3, 4, 6]), hashes=rng.random() < 0.5))
+        cases.append((src, [], []))
+        res.count("pp-macro-source")
+    pp_tie(ctx, res, exe, drv, cases, "preprocess-macros", 1500 if thorough else 120)
+    spec_pp_vs_gcc(ctx, res, drv, cases[:(600 if thorough else 60)], "macros")
+    cases = []
+    for i in range(n_pp):
+        src = gen_cond_source(rng, rng.choice([1, 2, 3, 5]))
+        d, u = gen_defs(rng)
+        cases.append((src, d, u))
+        res.count("pp-cond-source")
+    pp_tie(ctx, res, exe, drv, cases, "preprocess-conditionals", 1500 if thorough else 120)
+    spec_pp_vs_gcc(ctx, res, drv, cases[:(600 if thorough else 60)], "conditionals")
+
+    # ---- C-dui ---------------------------------------------------------------------------------------------------------------
+    cd_tie(ctx, res, exe, drv, 2000 if thorough else 300)
+
+
+def replay(ctx, res, rp):
+    drv = ctx.driver("drv_c11")
+    exe = ctx.harness("c11")
+    fail = False
+    if rp.get("kind") == "ev":
+        rc, io, err = core.run_lines(exe, [], ["ev %s %s" % (lst(rp.get("defs", EV_DEFS)), hx(rp["text"]))])
+        gb = gcc_branches([rp["text"]], rp.get("defs", EV_DEFS))[0]
+        print("#if %s\n  simplecpp: %s\n  gcc      : %s\n  spec     : %s" % (rp["text"], io[0], gb, rp.get("spec")))
+        ib = None if io[0].startswith("E") else (int(io[0].split()[1]) != 0)
+        want = (rp["spec"] != 0) if rp.get("spec") is not None else gb
+        fail = ib != want
+    elif rp.get("kind") == "pp":
+        d, u = rp.get("defs", []), rp.get("undefs", [])
+        rc, io, err = core.run_lines(exe, [], ["pp 111 %s %s %s" % (lst(d), lst(u), hx(rp["src"]))])
+        g, gerr = gcc_pp(rp["src"], d, u)
+        o = canon_pp(io[0])
+        it = toks_of(o)
+        print("%s  simplecpp: %s\n  gcc      : %s" % (rp["src"], " ".join(it) if it is not None else o, " ".join(g) if g is not None else gerr))
+        fail = g is not None and it != g
+    elif rp.get("kind") == "cd":
+        rc, io, err = core.run_lines(exe, [], ["cd %s %s %s %s" % (hx(rp["ud"]), lst(rp["undefs"]), hx(rp["cfg"]), hx(rp["src"]))])
+        print(rp["src"]); print(canon_pp(io[0]))
+        t = toks_of(canon_pp(io[0])) or []
+        dn = [re.split(r"[=(]", p)[0] for p in rp["ud"].split(";") if p]
+        fail = any(x not in rp["undefs"] and ("first_" + x) not in t for x in dn) or any(("first_" + x) in t or ("last_" + x) in t for x in rp["undefs"])
+    if fail:
+        print("VIOLATION property=C11 replay=(replayed)")
+    print("replay: %s" % ("still fails" if fail else "does not fail"))
+    return 1 if fail else 0
